@@ -80,7 +80,7 @@ def main(prop, tier, only=None, engine=None):
             gj = min(jobs, g[0].get("jobs", jobs))
             res, wall, log, out = K.run_harnesses(prop, [h["name"] for h in g], gj,
                                                   g[0].get("timeout_s", timeout_s), g[0].get("mem_gb", mem_gb),
-                                                  tag="k-%s-%s" % (tier, gname))
+                                                  tag="k-%s-%s" % (tier, gname), ignore={h["name"]: h.get("ignore_failed") for h in g})
             for h, r in zip(g, res):
                 r["spec"] = h
                 k_results.append(r)
@@ -101,7 +101,8 @@ def main(prop, tier, only=None, engine=None):
                 if not failed:
                     inconclusive.append((h["name"], "failure could not be re-established in the detail run (see %s)" % dlog))
                     continue
-                real = [f for f in failed if "unwinding assertion" not in f["description"]]
+                real = [f for f in failed if "unwinding assertion" not in f["description"]
+                        and not any(re.search(p_, f["description"]) for p_ in (h.get("ignore_failed") or []))]
                 unmatched = []
                 for f in real:
                     kf = finding_for(known, prop, "K", h["name"], f["description"])
@@ -138,7 +139,7 @@ def main(prop, tier, only=None, engine=None):
                             "bounds": h.get("bounds", ""), "oracle": h.get("oracle", ""),
                             "verdict": r["verdict"], "checks": r["checks"], "cover_witnesses_satisfied": r["covers_sat"],
                             "cover_witnesses": r["covers"], "cbmc_time_s": r["time_s"], "stubs": h.get("stubs", []),
-                            "why": r["why"]})
+                            "ignored_tool_artefacts": h.get("ignore_failed", []), "why": r["why"]})
 
     # ---------------- engine M ----------------
     mq = [q for q in spec.get("m", []) if tier == "thorough" or q.get("tier", "quick") == "quick"]
